@@ -310,19 +310,19 @@ EXTRA_TEXT = {
  'C05': ' Histories of calls on one long-lived fitter (also created without x and later given data of another length) run with the kernels\' Python source: cached objects carried from call to call must not make a kernel index outside its arrays. Further theorems: `_numba_banded_dot_banded` (all band counts and N, with the caller lemmas for `_banded_dot_banded` and the three calls of beads), `_quadratic_bezier` / `_quadratic_bezier_spline` (arbitrary argmin outcomes), `_interp_inplace` (through `_fill_skips` and `_find_peak_segments`), `_loess_solver` and the loop indices of the three loess kernels, and caller lemmas deriving each precondition from the guards of loess, the spline set-up, peak_filling, corner_cutting and the rolling-std padding; exact access traces of the kernels\' Python source against the models and precondition monitors on every kernel call made by the public methods.',
  'C03': ' Besides the modelled cache state machine: an object-history fuzzer over ALL public methods (random and systematic histories on one long-lived fitter: the same method with the same arguments, with one argument — one axis of a pair in 2-D, the wrapped method, each value of a string option — changed, two integer arguments moved in opposite directions, same-module methods in sequence; fitters created with / without x; the caller re-using its buffers) in which every call must give what a fresh fitter gives.',
  'C06': ' Further theorems: `kron_penalty_vec`, `doc2d_is_kron_sum`, `asm2d_den`, `doc2d_apply_vec` (the 2-D documented system is diag(w) + the Kronecker sum and acts on the row-major vec as row / column operators), `jbcd_asm_den` (+ `jbcd_signal_ne_documented`: the coded signal system differs from the documented one by the factor 2 on gamma — observation), `converged_pair_solves`, `exhausted_returns_fresh_state`, `stateful_refines_skeleton`, `brpls_pair_solves`, `jbcd_pair_solves`; captured 2-D sparse systems and jbcd band systems against the Lean assembly, loop models fed with the decisions of real runs. The 2-D returned-pair certificates run with the data and the weights in every memory layout (C / Fortran order, transposed and strided views), independently.',
- 'C07': ' Every section also on x-axes of unusual magnitude; all cases have a working replay. Further theorems: `pspline_iasls_extra` (+ `_full`, `_rhs`), `pspline_drpls_asm_den`, `pspline_aspls_asm_den` (+ `_midpoints`), `pspline_drpls_aspls_rhs`, `lowerToFull_den`, `addDiagonalsFull_den`, `shiftRows_reverse_colscale_any`; the systems captured at `PenalizedSystem.solve` for pspline_iasls / drpls / aspls are compared with the Lean assembly over solvers 1-4.',
+ 'C07': ' `pspline_system_magnitude_free`, `pspline_iasls_system_magnitude_free`, `pspline_system_of_scaled_x` (the assembled system does not depend on the magnitude of the x-axis). Every section also on x-axes of unusual magnitude; all cases have a working replay. Further theorems: `pspline_iasls_extra` (+ `_full`, `_rhs`), `pspline_drpls_asm_den`, `pspline_aspls_asm_den` (+ `_midpoints`), `pspline_drpls_aspls_rhs`, `lowerToFull_den`, `addDiagonalsFull_den`, `shiftRows_reverse_colscale_any`; the systems captured at `PenalizedSystem.solve` for pspline_iasls / drpls / aspls are compared with the Lean assembly over solvers 1-4.',
  'C08': ' 2-D max_cross modelled and proved: `maxCross_kept_iff`, `colIndex_bijection`, `maxCross_none_iff`, `maxCross_zero`, `maxCross_mono`, `allowed_downward_closed`, `vander_masked_apply`, `convertCoef2d_preserves_exclusion`, `maxCross_returned_coef`; the kept-column pattern of the real _PolyHelper2D (fresh and re-used) against the model for all order pairs <= 4 and every max_cross. 2-D max_cross: the documented monomial set, written down independently of the code, for all five 2-D polynomial methods over unequal order pairs and every max_cross: excluded coefficients are zero, the baseline lies in the allowed span, exact normal equations for poly.',
  'C09': ' Route A for the stop rule: `loops_stop_first`, `loops_tol_tested` over the loops translated from the source. Route A: the final weight expression of ten of the eleven rules is parsed from the source text of _weighting.py on every run (Gen/WeightExprs); `gen_<rule>_eq_model` proves it equal to the hand model and `src_<rule>_range` / `src_<rule>_antitone` / `src_quantile_bounds` transfer the theorems to the source expression (a changed constant, sign or cap breaks a named theorem); the translated expression is also evaluated in Float against the real functions. Histories on one long-lived fitter whose caller re-uses its data buffer: the weights of every call against a fresh fitter.',
- 'C10': ' Every 1-D method is also run on data with a 1e6 offset and little noise and on data scaled by 1e-6 / 1e6 in all configurations (a fall-back must be as accurate as the accelerated path, not only algebraically equal).',
+ 'C10': ' Every 1-D method is also run on x-axes of unusual magnitude (scaled by 2^-30 / 2^30, offset by 1.7e9) in all configurations. Every 1-D method is also run on data with a 1e6 offset and little noise and on data scaled by 1e-6 / 1e6 in all configurations (a fall-back must be as accurate as the accelerated path, not only algebraically equal).',
  'C11': ' In the reconfiguration histories the real systems are USED in place between reconfigurations (add_diagonal + solve with and without overwrite_ab; solve_pspline), as the methods use them.',
- 'C12': ' Every case also on x-axes of unusual magnitude (scales 1e-30 ... 1e30, large offsets with a narrow range, negative ranges).',
+ 'C12': ' Magnitude invariance proved over Q for t -> a t + b: `deBoor_affine_invariant`, `findInterval_affine_invariant`, `designRows_affine_invariant`, `splineKnots_affine`, `basis_magnitude_free`, `normal_equations_magnitude_free` (an absolute tolerance on knots contradicts them). Every case also on x-axes of unusual magnitude (scales 1e-30 ... 1e30, large offsets with a narrow range, negative ranges).',
  'C13': ' Histories on one long-lived fitter in which the SAME caller objects (data buffer overwritten in place, weights array, keyword dictionaries) are handed to several calls, every ordered pair of same-module methods that take weights included. method_kwargs dictionaries are also given keys that shadow the optimizer\'s own arguments or that it treats specially (weights, alpha, tol, lam, max_iter, x_data), with the explicit argument omitted.',
  'C14': ' Data on pedestals of 1e6 ... 1e9 and shifts of that size for every method. 2-D: `erode2d_rect_min` / `dilate2d_rect_max`, `tophat2d_le`, `tophat2d_idem`, `tophat2d_shift`, `mor2d_le`, `mor2d_shift`, `imor2d_le` and the shape lemmas are proved for every rectangular matrix and every pair of half windows; the 2-D correspondence covers unequal windows, windows longer than an axis and thin shapes. Rubberband: theorems `lowerHull_cert_sound` (the interpolant through a certified mask is <= the data, touches it at the vertices, is convex), `lowerHull_greatest` / `lowerHull_unique` (it is THE greatest convex minorant, whatever collinear points the mask keeps), `lowerHull_shift`, `rubberband_segments_interp`; the real baseline is compared with the model\'s exact np.interp through the returned mask (bit-exact at the vertices, a derived ulp bound elsewhere), per segment, with weights, and on shifted data.',
  'C15': ' For every parameter that accepts two values: the classes with exactly one invalid entry at either position (tuple, list, array), and every out-of-domain scalar as numpy scalar, 0-d array and length-one sequence.',
  'C16': ' Route A table obligation `wrappers_match` over Gen/Wrappers (regenerated on every run): every public 1-D method has a module-level function that takes x_data and otherwise the same parameters, defaults and order (interp_pts being the documented exception to the order) — the premise of `classWrapper_forwards`. Histories of calls on one long-lived Baseline against the module-level function with x_data.',
  'C17': ' Histories of optimizer calls on one long-lived fitter (the wrapped method, the side and other options changing one at a time) against a fresh fitter. collab_pls: planner model of every call it makes (first pass, final fits, overridden keys per method family, averaging order, error order) with theorems `collab_kwargs`, `collab_calls_average_dataset`, `collab_calls_average_weights`, `collab_final_fit_kwargs`, `collab_errors`, `collab_reported_weights_are_used`, `collab_single_dataset`; the Lean plan is executed with the real wrapped method and the calls the real collab_pls makes are recorded and compared with the plan (count, data, keyword names in order, values bit-exact).',
  'C18': ' 2-D theorems: `pad2d_shape`, `pad2d_interior`, `pad2d_rows_are_1d` / `pad2d_cols_are_1d` / `pad2d_all_rows_are_1d` (the 2-D result is the 1-D model applied along each axis, in either order: `extrap2d_corner_orders_agree`), `extrap2d_planar_exact` and `extrap2d_planar_clamped` (every entry, corners included, for every window combination), `extrap2d_window_one(_sides)`, and the argument resolution of pad_edges2d (`pad2d_args_*`); correspondence over every argument form (scalar / pair / four values, nested windows, malformed), single-row and single-column data, and against compositions of the real 1-D pad_edges.',
- 'C19': ' loess, kernel and history cases also on exact dyadic images of the axis (2^-100 ... 2^99, offset windows). Theorems `strategies_equal_first`, `strategies_equal`, `strategies_equal_loop`, `strategies_equal_loess` (the two memory strategies end in the same state for every interpretation of the scalar operations and every solver, for every max_iter), `baseline_written_iff`, `kernel_den_pos`, `poly_reproduction` (under the numeric-layer hypothesis that the local solver satisfies its normal equations); the real kernels\' Python source is compared with the model bit-exactly on the kernel vectors and in exact rationals on two passes; histories of loess calls on ONE re-used fitter (delta, total_points, poly_order, budget and strategy changing from call to call) against a fresh fitter.',
+ 'C19': ' Magnitude invariance proved: `determineFits_affine_invariant`, `determineFits_congr`, `fillSkips_affine_invariant`, `kernel_affine_invariant`. loess, kernel and history cases also on exact dyadic images of the axis (2^-100 ... 2^99, offset windows). Theorems `strategies_equal_first`, `strategies_equal`, `strategies_equal_loop`, `strategies_equal_loess` (the two memory strategies end in the same state for every interpretation of the scalar operations and every solver, for every max_iter), `baseline_written_iff`, `kernel_den_pos`, `poly_reproduction` (under the numeric-layer hypothesis that the local solver satisfies its normal equations); the real kernels\' Python source is compared with the model bit-exactly on the kernel vectors and in exact rationals on two passes; histories of loess calls on ONE re-used fitter (delta, total_points, poly_order, budget and strategy changing from call to call) against a fresh fitter.',
  'C20': ' individual_axes: planner model with theorems `individualAxes_plan`, `individualAxes_kwargs_pairing`, `individualAxes_errors`, `individualAxes_shape`, `individualAxes_one_axis_coords`, `individualAxes_two_is_one_then_one`, `individualAxes_reorder`; the plan is executed with the real 1-D methods and compared fit by fit. The degrees of freedom reported in the eigenbasis (`return_dof`) are recomputed densely from the system\'s own eigenvectors for the RETURNED weights.',
 }
 
